@@ -520,25 +520,33 @@ def canonical_form_table(F, R):
     R.rule("C04.R8", "canonical form table: sort key, templates, case folding and skipped header are the reviewed ones")
     gp = F.fns.get(HC + "get_path_and_canonicalized_parameters")
     if gp:
-        B = mir.Body(gp, F)
-        tmpls = []
-        for bi, w, r, t in B.calls_named("fmt::format"):
-            fmt = q.format_of(B, {"k": "copy", "p": {"l": t["dest"]["l"], "p": []}})
-            if fmt:
-                lowered = [any(q.ends(v, "to_lowercase", "to_ascii_lowercase") for v in B.via(a["operand"])) for a in fmt["args"]]
-                tmpls.append((q.template_text(fmt), tuple(lowered), B.line(bi)))
+        # the function and its closures: the construction may be spelled as loops or as an iterator chain
+        from rules.c02 import descendants
+        family = [gp] + descendants(F, gp["id"])
+        tmpls, sorts, n_lower, amp = [], [], 0, []
+        for f in family:
+            B = mir.Body(f, F)
+            R.touched(f["id"])
+            lowers_here = len(B.calls_named("str::to_lowercase", "to_lowercase"))
+            n_lower += lowers_here
+            for bi, w, r, t in B.calls_named("fmt::format"):
+                fmt = q.format_of(B, {"k": "copy", "p": {"l": t["dest"]["l"], "p": []}})
+                if fmt:
+                    lowered = [any(q.ends(v, "to_lowercase", "to_ascii_lowercase") for v in B.via(a["operand"])) for a in fmt["args"]]
+                    # where the name is folded in an earlier stage of a chain the template's own body has no folding call to relate to
+                    tmpls.append((q.template_text(fmt), tuple(lowered), B.line(bi), lowers_here > 0))
+            sorts += B.calls_named("slice::sort", "sort", "Itertools::sorted", "sorted", "sort_unstable")
+            amp += [c for c in B.calls_named("String::push") if c[3]["args"][1]["k"] == "const" and c[3]["args"][1].get("val") == ord("&")]
+            amp += [c for c in B.calls_named("Itertools::join", "slice::join", "join")
+                    if len(c[3]["args"]) == 2 and any(o[0] == "const" and o[2] == "&" for o in B.origins(c[3]["args"][1]))]
         texts = sorted(x[0] for x in tmpls)
         sortkey = [x for x in tmpls if x[0] == "{}{}"]
         pair = [x for x in tmpls if x[0] == "{}={}"]
-        sorts = B.calls_named("slice::sort", "sort", "Itertools::sorted", "sorted", "sort_unstable")
-        n_lower = len(B.calls_named("str::to_lowercase", "to_lowercase"))
-        ok = len(sortkey) == 1 and sortkey[0][1][0] is True and len(pair) == 1 and len(sorts) >= 1 and n_lower >= 1
-        # what is sorted carries the sort key as its first component
+        ok = len(sortkey) == 1 and (sortkey[0][1][0] is True or not sortkey[0][3]) and len(pair) == 1 and len(sorts) >= 1 and n_lower >= 1
         R.check(ok, "C04.R8", "C04.R8:%s:query-canonical-form" % gp["id"], "%s:%s" % (gp["file"], gp["line"]),
                 "query parameters: sort key = lower(name)+value (\"{}{}\"), emitted as lower(name)=value joined by '&', sorted ascending",
                 "the canonical form of query parameters changed (format templates now %s, %d sort call(s)): the host recomputes the MAC with the "
                 "reviewed form (sort by the concatenation lower(name)+value), so signatures stop verifying for some queries" % (texts, len(sorts)))
-        amp = [c for c in B.calls_named("String::push") if c[3]["args"][1]["k"] == "const" and c[3]["args"][1].get("val") == ord("&")]
         R.check(len(amp) == 1, "C04.R8", "C04.R8:%s:separator" % gp["id"], "-", "pairs are joined with '&'")
     hc = F.fns.get(HC + "headers_to_canonicalized_string")
     if hc:
